@@ -159,6 +159,36 @@ def run(F, rep, tier):
             rep.viol('R11.1', '%s|len-next-agreement' % base, '%s: %s' % (ty, '; '.join(bad)), F.body(nxt).loc(0))
         else:
             rep.ok('R11.1', inst, 'consistent')
+    # ---------------- R11.8
+    rep.rule('R11.8', 'iterate(a, f) yields an element before it applies f to it: in the ready (Ok) state Iterate::next returns Some(Ok(current)) '
+             'on every path - a failure or break of the step function is stored for the following call, it does not replace the element that '
+             'peek (which returns Some(Ok(current)) in that state) has already promised')
+    itn = '<streams::Iterate as std::iter::Iterator>::next'
+    if not F.has_fn(itn):
+        rep.error('R11.8', 'Iterate::next missing')
+    else:
+        ib = F.body(itn)
+        im = find_match(F, itn, r'Result<\(core::Obj, core::Func', min_arms=2)
+        okarm = [i for i, a in enumerate(im['arms']) if pat_str(a['pat']).startswith('v1::Ok')]
+        if len(okarm) != 1:
+            rep.error('R11.8', 'Iterate::next: ready-state arm not found')
+        else:
+            regn = arm_region(F, ib, im, okarm[0])
+            rets = [(bb, s_) for bb, s_ in ib.aggregates(regn) if s_[1] == [0]]
+            other0 = [bb for bb in regn for s_ in ib.stmts(bb) if s_[0] == 'a' and s_[1] == [0] and s_[2][0] != 'agg']
+            other0 += [c.bb for c in ib.calls_in(regn) if c.dest == [0]]
+            bad = []
+            for bb, s_ in rets:
+                pay = set()
+                for o in s_[2][5]:
+                    pay |= origins(ib, o)
+                if not (s_[2][4] == 'Some' and pay and all(o[0] == 'agg' and o[2] == 'Ok' for o in pay)):
+                    bad.append((bb, s_[2][4], sorted(str(o[:3]) for o in pay)))
+            if rets and not bad and not other0:
+                rep.ok('R11.8', 'Iterate::next ready state', '%d return value(s), all Some(Ok(_))' % len(rets))
+            else:
+                loc = ib.loc(bad[0][0]) if bad else (ib.loc(other0[0]) if other0 else ib.loc(0))
+                rep.viol('R11.8', 'streams::Iterate|next|ready-state-result', 'in its ready state Iterate::next can return %s: the element on which the step function fails or breaks is lost (peek still reports it)' % (bad[:2] or 'a value not built as Some(Ok(_))'), loc)
     # ---------------- R11.7
     rep.rule('R11.7', 'observation is relative to the cursor: in every impl Stream, an overriding len / peek / reversed / pythonic_index_isize / '
              'pythonic_slice that reads the stream\'s state at all reads every field that next() advances (writes of next under-approximated, '
